@@ -84,7 +84,19 @@ def gen_states(chk):
     return d['states']
 
 
-def _eval(case):
+def _eval_group(group):
+    """one expression OBJECT evaluated in several machine states one after the other (a fresh machine per state, as in
+    `for state in states: eval_abs(state).eval_expr(e, {})`): every result must still be the substitution"""
+    eobj = EJ.from_json(group[0]['e'])
+    out = []
+    for j, c in enumerate(group):
+        r = _eval(c, eobj)
+        r['earlier_states'] = [g['st'] for g in group[:j]]
+        out.append(r)
+    return out
+
+
+def _eval(case, eobj=None):
     """case: {e, st: choice list} -> observation record"""
     from miasmx.expression.expression_eval_abstract import eval_abs
     from miasmx.expression.expression_helper import expr_simp
@@ -108,7 +120,7 @@ def _eval(case):
         rec['cells'].append([EJ.to_json(key_addr), w, b[s]])
     def go(tree):
         m = eval_abs(vars_)
-        return m.eval_expr(EJ.from_json(tree), {})
+        return m.eval_expr(EJ.from_json(tree) if eobj is None else eobj, {})
     stt, r = irlib.guarded(go, t, 5)
     rec['st'] = stt
     if stt == 'ok':
@@ -215,6 +227,75 @@ def _lift_cases(args):
     return out
 
 
+def fold_trees(rnd, n):
+    """structured trees aimed at the evaluator's folding branches: concatenations whose parts are constants, identifiers,
+    slices and conditionals with constant arms (0..4 of them), conditionals of conditionals, n-ary operators mixing
+    constants and identifiers, slices of all of these"""
+    def c(w):
+        return const(rnd.choice(irlib.boundary(w)) if rnd.random() < 0.6 else rnd.getrandbits(w), w)
+
+    def leaf(w):
+        r = rnd.random()
+        if w == 8:
+            return c(8) if r < 0.35 else ident(rnd.choice(['x8', 'y8']), 8) if r < 0.8 else dict(cell_tree('c8'))
+        if w == 32:
+            return c(32) if r < 0.35 else ident(rnd.choice(['x32', 'y32']), 32) if r < 0.8 else dict(cell_tree(rnd.choice(['c32', 'k32'])))
+        lo = rnd.choice([0, 8, 16]) if w == 16 else 0
+        return c(w) if r < 0.4 else {'k': 'slice', 'w': w, 'lo': lo, 'hi': lo + w, 'a': [ident(rnd.choice(['x32', 'y32']), 32)]}
+
+    def cnd():
+        r = rnd.random()
+        if r < 0.5:
+            return ident(rnd.choice(['x8', 'y8']), 8)
+        if r < 0.75:
+            return {'k': 'op', 'w': 8, 'o': '==', 'u': 0, 'a': [ident(rnd.choice(['x8', 'y8']), 8), c(8)]}
+        return ident(rnd.choice(['x32', 'y32']), 32)
+
+    def part(w, d):
+        r = rnd.random()
+        if r < 0.45 or d == 0:
+            return leaf(w)
+        if r < 0.85:
+            return {'k': 'cond', 'w': w, 'a': [cnd(), c(w) if rnd.random() < 0.8 else part(w, d - 1), c(w) if rnd.random() < 0.8 else part(w, d - 1)]}
+        if w in (8, 32):
+            return nary(w, d - 1)
+        return leaf(w)
+
+    def nary(w, d):
+        o = rnd.choice(['+', '^', '&', '|', '*'])
+        return {'k': 'op', 'w': w, 'o': o, 'u': 0, 'a': [part(w, d) for _ in range(rnd.choice([2, 3, 3, 4]))]}
+
+    def compose(w, d):
+        lay = rnd.choice({16: [[8, 8]], 32: [[8, 8, 16], [16, 16], [8, 24], [8, 8, 8, 8], [16, 8, 8], [24, 8]]}[w])
+        args, sl, pos = [], [], 0
+        for pw in lay:
+            args.append(part(pw, d) if pw in (8, 16, 32) else {'k': 'slice', 'w': 24, 'lo': rnd.choice([0, 8]), 'hi': 0, 'a': [ident(rnd.choice(['x32', 'y32']), 32)]}
+                        if rnd.random() < 0.5 else const(rnd.getrandbits(24), 32))
+            if args[-1]['k'] == 'slice' and args[-1]['hi'] == 0:
+                args[-1]['hi'] = args[-1]['lo'] + 24
+            sl.append([pos, pos + pw])
+            pos += pw
+        return {'k': 'compose', 'w': w, 'a': args, 's': sl}
+
+    out = []
+    while len(out) < n:
+        r = rnd.random()
+        w = rnd.choice([16, 32, 32])
+        if r < 0.55:
+            t = compose(w, 1)
+        elif r < 0.7:
+            t = {'k': 'cond', 'w': 32, 'a': [cnd(), part(32, 1), part(32, 1)]}
+        elif r < 0.85:
+            t = nary(rnd.choice([8, 32]), 1)
+        else:
+            src = compose(32, 1) if rnd.random() < 0.6 else part(32, 1)
+            sw = rnd.choice([8, 16])
+            lo = rnd.choice([0, 8, 16, 32 - sw])
+            t = {'k': 'slice', 'w': sw, 'lo': lo, 'hi': lo + sw, 'a': [src]}
+        out.append(t)
+    return out
+
+
 def envs_for(rec, rnd, n):
     idw = EJ.ids_of(rec['e'])
     for nm, bt in rec['ids']:
@@ -277,7 +358,23 @@ def run(tier, chk):
             cases.append({'id': len(cases), 'e': t, 'st': rnd.choice(states)})
         # and one all-constant state
         cases.append({'id': len(cases), 'e': t, 'st': [rnd.choice(['const1', 'const2']) for _ in SLOTS]})
+    nstd = len(cases)
+    for t in fold_trees(rnd, 3000 if quick else 30000):
+        for _ in range(2):
+            cases.append({'id': len(cases), 'e': t, 'st': rnd.choice(states)})
+        cases.append({'id': len(cases), 'e': t, 'st': [rnd.choice(['const1', 'const2']) for _ in SLOTS]})
+        cases.append({'id': len(cases), 'e': t, 'st': [rnd.choice(['absent', 'sym']) for _ in SLOTS]})
+    chk.cov['folding_family_cases'] = len(cases) - nstd
     recs = irlib.pmap(_eval, cases)
+    # the same expression object under several states in a row (absent / symbolic bindings first, constants last)
+    groups = []
+    pool = trees + fold_trees(rnd, 500 if quick else 5000)
+    for t in rnd.sample(pool, min(len(pool), 1500 if quick else 15000)):
+        sts = [[rnd.choice(['absent', 'sym']) for _ in SLOTS], rnd.choice(states), [rnd.choice(['const1', 'const2']) for _ in SLOTS]]
+        groups.append([{'id': len(recs) + 3 * len(groups) + j, 'e': t, 'st': st_} for j, st_ in enumerate(sts)])
+    for g in irlib.pmap(_eval_group, groups):
+        recs += g
+    chk.cov['same_object_under_several_states'] = 3 * len(groups)
     lifted = []
     for chunk in irlib.pmap(_lift_cases, [(chk.seed * 100 + k, 2 if quick else 6) for k in range(8)], chunk=1):
         lifted += chunk
@@ -311,7 +408,7 @@ def run(tier, chk):
             continue
         chk.cov['skipped_illtyped_or_div_fault'] = skipped
         chk.violation(keyof(r, f), {'e': r['e'], 'e_text': EJ.show(r['e']), 'ids': r['ids'], 'cells': r['cells'], 'line': r.get('line'),
-                                    'choices': r.get('choices'),
+                                    'choices': r.get('choices'), 'earlier_states_same_object': r.get('earlier_states', []),
                                     'result_text': EJ.show(r['r']) if r['st'] == 'ok' and r['r']['k'] not in ('none', 'other') else r['st'], 'verdict': f})
 
 
@@ -340,8 +437,8 @@ def replay(path, chk):
     d = rp['detail']
     irlib._init_worker(False)
     if d.get('choices'):
-        rec = _eval({'id': 0, 'e': d['e'], 'st': d['choices']})
-        recs = [rec]
+        sts = list(d.get('earlier_states_same_object') or []) + [d['choices']]
+        recs = _eval_group([{'id': j, 'e': d['e'], 'st': st_} for j, st_ in enumerate(sts)])
     else:
         recs = [r for r in _lift_cases((chk.seed, 4)) if r.get('line') == d.get('line')]
         for i, r in enumerate(recs):
